@@ -72,6 +72,9 @@ def _mkgen():
     add("meta/c.txt.gz", gzip.compress(b"compressed text\n", mtime=0))
     add("gm/gophermap", b"info\n0doc\t../meta/doc.txt\n0here\tt.txt\n")
     add("gm/t.txt", b"t\n")
+    add("odd/what?.txt", b"question mark\n")
+    add("odd/a|b.txt", b"pipe\n")
+    add("odd/q?dir/inner.txt", b"inner\n")
     add("caf\u00e9.txt", b"utf8 name\n")                  # UTF-8 flagged name
     z.close()
     # a member whose name is raw Latin-1 bytes (not valid UTF-8): patch the cp437 form
@@ -208,9 +211,9 @@ def body_lookup(fx: int, p: str, warm: str) -> bool:
 
 # ------------------------------------------------------------------ archive vs extraction through the real handler chain
 
-GEN_DIRS = ["", "/v2", "/imp", "/imp/deep", "/meta", "/gm", "/current", "/latest"]
-GEN_DOCS = ["/meta/c.txt.gz", "/data.txt", "/a_alias.txt", "/b_alias.txt", "/imp/abs", "/imp/up", "/imp/.hidden", "/meta/doc.txt", "/caf\u00e9.txt", "/\udcae.txt", "/imp/dangling", "/imp/loop1", "/imp/out", "/nonexistent", "/current/f.txt"]
-REQS = [(d, "menu") for d in GEN_DIRS] + [(d, "gopher+dir") for d in GEN_DIRS[:6]] + [(d, "doc") for d in GEN_DOCS]
+GEN_DIRS = ["", "/v2", "/imp", "/imp/deep", "/meta", "/gm", "/odd", "/current", "/latest", "/odd/q?dir"]
+GEN_DOCS = ["/odd/what?.txt", "/odd/a|b.txt", "/odd/q?dir/inner.txt", "/meta/c.txt.gz", "/data.txt", "/a_alias.txt", "/b_alias.txt", "/imp/abs", "/imp/up", "/imp/.hidden", "/meta/doc.txt", "/caf\u00e9.txt", "/\udcae.txt", "/imp/dangling", "/imp/loop1", "/imp/out", "/nonexistent", "/current/f.txt"]
+REQS = [(d, "menu") for d in GEN_DIRS] + [(d, "gopher+dir") for d in GEN_DIRS[:7]] + [(d, "doc") for d in GEN_DOCS]
 
 
 def _ask(sel, form):
